@@ -337,7 +337,7 @@ def container_bytes(c):
 
 # ----------------------------------------------------------------------------- growth of the work with the input size
 SCALE_FAMILIES = ["cdda_same_title", "cdda_distinct", "akai_same_name", "akai_distinct", "akai_chain", "akai_pairs", "akai_volumes",
-                  "roland_same_name", "roland_distinct", "cue_rem_lines", "roland_fat_down", "roland_fat_zigzag"]
+                  "roland_same_name", "roland_distinct", "cue_rem_lines", "roland_fat_down", "roland_fat_zigzag", "akai_volume_pairs"]
 
 
 def scale_input(family, n, d):
@@ -358,6 +358,11 @@ def scale_input(family, n, d):
         if family == "akai_chain":
             files = [{"name": "LONG", "n": A.words_for_sectors(n), "chain": list(range(4, 4 + n))[::-1], "seq": 1}]
             vols = [{"name": "VOL", "dir": [3], "files": files}]
+        elif family == "akai_volume_pairs":
+            # n/2 volumes (at most 99), an L/R pair in each: what is queued for one directory must not be written again with the next
+            k = min(n // 2, 99)
+            vols = [{"name": "V%03d" % i, "dir": [3 + 3 * i], "files": [{"name": "P -L", "n": 30, "chain": [4 + 3 * i], "seq": 1},
+                                                                         {"name": "P -R", "n": 30, "chain": [5 + 3 * i], "seq": 2}]} for i in range(k)]
         elif family == "akai_volumes":
             k = min(n, 99)
             vols = [{"name": "V%03d" % i, "dir": [3 + 2 * i], "files": [{"name": "S", "n": 30, "chain": [4 + 2 * i], "seq": 1}]} for i in range(k)]
@@ -488,9 +493,9 @@ class Check(CheckBase):
             "version, MDX cut in the middle, MODE1/2352 images cut at 10 odd lengths; thorough: ALL PAIRS of table faults (AKAI SAT x SAT, Roland FAT x FAT) and "
             "all pairs (table fault, pointer/entry fault). Every run = ls at the root and at every reachable node + export, "
             "under an 8 s CPU budget (clean run: 0.03-0.3 s) and an address-space limit (min(6 GiB, 60 % of RAM / workers)), and the bytes "
-            "written by export must stay below 4 x the input size + 1 MiB, every listing below 16 x the input size + 1 MiB (a sheet of 600 tracks with one title of 100 000 characters); (growth) 12 input families whose size "
+            "written by export must stay below 4 x the input size + 1 MiB, every listing below 16 x the input size + 1 MiB (a sheet of 600 tracks with one title of 100 000 characters); (growth) 13 input families whose size "
             "grows linearly with n (n CDDA tracks with one / distinct titles, n AKAI files with one / distinct names, n/2 L/R pairs, "
-            "n volumes, one file of n sectors, n Roland samples with one / distinct names, 20n comment lines, a Roland FAT chain of 10n clusters that descends / zigzags) run at n and 2n "
+            "n volumes, n/2 volumes with an L/R pair each, one file of n sectors, n Roland samples with one / distinct names, 20n comment lines, a Roland FAT chain of 10n clusters that descends / zigzags) run at n and 2n "
             "(n=60; thorough also 150) under a line counter: no function of the tool may execute more than 3x the lines at 2n "
             "(linear work doubles, quadratic work quadruples) -- deterministic, no clock involved. non-trivial = fault that changes "
             "the outcome class")
